@@ -57,8 +57,14 @@ impl<T: Read + Seek> E57Reader<T> {
             header.xml_length as usize,
         )?;
         let xml = String::from_utf8(xml_raw).read_err("Failed to parse XML as UTF8")?;
-        crate::xml::check_xml_shape(&xml)?;
-        let document = Document::parse(&xml).invalid_err("Failed to parse XML data")?;
+        // Character data that is split into very many pieces is joined first, the parser needs quadratic time for it
+        let joined_xml = if crate::xml::check_xml_shape(&xml)? {
+            Some(crate::xml::join_text_pieces(&xml)?)
+        } else {
+            None
+        };
+        let document = Document::parse(joined_xml.as_deref().unwrap_or(&xml))
+            .invalid_err("Failed to parse XML data")?;
         let root = root_from_document(&document)?;
         let pointclouds = PointCloud::vec_from_document(&document)?;
         let images = Image::vec_from_document(&document)?;
